@@ -148,6 +148,10 @@ int main(void)
       if (atoi(tok[2])) s |= GD_ARM_ENDIAN; else s |= GD_NOT_ARM_ENDIAN;
       int r = gd_alter_endianness(D, s, atoi(tok[3]), atoi(tok[4]));
       printf("alter_endianness %d %d\n", r, (D->flags & GD_INVALID) ? 1 : 0);
+    } else if (!strcmp(c, "alter_endianness_raw")) {
+      /* alter_endianness_raw <byte_sex as number> frag move */
+      int r = gd_alter_endianness(D, strtoul(tok[1], NULL, 0), atoi(tok[2]), atoi(tok[3]));
+      printf("alter_endianness_raw %d %d\n", r, (D->flags & GD_INVALID) ? 1 : 0);
     } else if (!strcmp(c, "alter_frameoffset")) {
       int r = gd_alter_frameoffset64(D, strtoll(tok[1], NULL, 0), atoi(tok[2]), atoi(tok[3]));
       printf("alter_frameoffset %d %d\n", r, (D->flags & GD_INVALID) ? 1 : 0);
